@@ -6,7 +6,10 @@ code under proof (JSON-ish data, header/claims/JWK members, octet strings):
     vabsent                     -- "no value": marks an absent dict key; never a Python value
     vnone | vbool b | vint i | vfloat r | vstr s | vbytes y
     vlist  (Seq PyVal)
-    vdict  (vals: Array String PyVal, n: Int)   -- str-keyed; key k present  <=>  vals[k] != vabsent
+    vdict  (d: Int)             -- dict id; content DArr(d): Array String PyVal (key k present <=> DArr(d)[k] != vabsent),
+                                   size DN(d); DId(array, n) is the id of a content (bijection, background axioms).
+                                   (An array *inside* the datatype made z3 diverge on quantified dict invariants --
+                                   measured; the id indirection keeps arrays out of the recursive datatype.)
     vobj   (Int)                -- reference to a heap object / opaque foreign object
 
 ``bytes`` are modelled as SMT strings whose characters are the octets (codes 0..255).
@@ -35,7 +38,7 @@ _DECL = """
   (vstr (s String))
   (vbytes (y String))
   (vlist (l (Seq PyVal)))
-  (vdict (vals (Array String PyVal)) (n Int))
+  (vdict (d Int))
   (vobj (o Int))
 )))
 (declare-const __probe PyVal)
@@ -97,8 +100,40 @@ def mk_list(seq):
     return C["vlist"](seq)
 
 
+DArr = z3.Function("DArr", IntSort, ArrSV)
+DN = z3.Function("DN", IntSort, IntSort)
+DId = z3.Function("DId", ArrSV, IntSort, IntSort)
+
+
 def mk_dict(vals, n):
-    return C["vdict"](vals, n)
+    return C["vdict"](DId(vals, n))
+
+
+def dvals(t):
+    """Content array of a dict-valued term."""
+    d = z3.simplify(A["d"](t))
+    if z3.is_app(d) and d.decl().eq(DId):
+        return d.arg(0)
+    return DArr(d)
+
+
+def dn(t):
+    d = z3.simplify(A["d"](t))
+    if z3.is_app(d) and d.decl().eq(DId):
+        return d.arg(1)
+    return DN(d)
+
+
+def background_axioms():
+    """DId is a bijection between (content, size) and dict ids."""
+    a = z3.Const("a!bg", ArrSV)
+    n = z3.Const("n!bg", IntSort)
+    i = z3.Const("i!bg", IntSort)
+    return [
+        z3.ForAll([a, n], z3.And(DArr(DId(a, n)) == a, DN(DId(a, n)) == n), patterns=[DId(a, n)]),
+        z3.ForAll([i], DId(DArr(i), DN(i)) == i, patterns=[DArr(i)]),
+        z3.ForAll([i], DId(DArr(i), DN(i)) == i, patterns=[DN(i)]),
+    ]
 
 
 def mk_obj(o):
@@ -266,7 +301,9 @@ def lower(t):
         return [lower(x) for x in _seq_items(a)]
     if tag == "vdict":
         out = {}
-        for k, v in _array_items(a):
+        if not (z3.is_app(a) and a.decl().eq(DId)):
+            raise NotConcrete()
+        for k, v in _array_items(a.arg(0)):
             if head_tag(v) == "vabsent":
                 out.pop(k, None)
             else:
@@ -289,3 +326,15 @@ def fresh_name(prefix):
 
 def reset_fresh():
     _fresh_counter[0] = 0
+
+
+_KEEPALIVE = []
+
+
+def tid(t):
+    """Stable identity of a term: the AST id, with the term kept alive so the id is never reused."""
+    _KEEPALIVE.append(t)
+    return t.get_id()
+
+
+Nth = z3.Function("Nth", SeqPV, IntSort, PyVal)     # element of a list at an in-range index (trigger-friendly form of seq.nth)
